@@ -120,7 +120,7 @@ def run_more(ctx):
                 ctx.check(MON, dv < 1e-10, lambda: dict(desc, dev=dv, lib=got[:3], ref=ref[:3]), mechanism=mech)
             # -------------------------------------------------------------------------------------------------- FlatteGen / Flatte2
             elif model in ("FlatteGen", "Flatte2"):
-                opts = FLATTE_OPTS[rnd % len(FLATTE_OPTS)]
+                opts = FLATTE_OPTS[(rnd + (4 if model == "Flatte2" else 0)) % len(FLATTE_OPTS)]  # the quick tier (4 rounds) meets every option set
                 ml = [[mB, mD], [float(rng.uniform(0.2, 0.7)), float(rng.uniform(0.2, 0.7))]]
                 if rnd % 2:
                     ml.append([float(rng.uniform(0.1, 0.4)), float(rng.uniform(0.4, 0.9))])
@@ -134,6 +134,10 @@ def run_more(ctx):
                 g = [float(rng.uniform(0.1, 0.9)) for _ in ml]
                 set_checked(amp, {rn + "_g_%d" % k: g[k] for k in range(len(ml))})
                 mm = np.concatenate([np.linspace(max(0.12, lo - 0.25), lo - 1e-3, 8), m])  # below the first threshold too
+                if opts.get("cut_phsp"):
+                    # documented cut: q_i = 0 where the Kallen product is negative; the code cuts for m < m1 + m2.  The two agree above the
+                    # pseudo-thresholds |m1 - m2| (below them the product is positive again - an unphysical region that is not judged)
+                    mm = mm[mm > max(abs(a_ - b_) for a_, b_ in ml) + 1e-3]
                 got = np.asarray(R(T(mm)))
                 gg = [x * x for x in g] if model == "Flatte2" else g
                 tot = 0
@@ -159,7 +163,7 @@ def run_more(ctx):
                 ctx.check(MON, dv < 1e-10, lambda: dict(desc, dev=dv, m=mm[:3], lib=got[:3], ref=ref[:3]), mechanism=mech)
                 ctx.covered("flatte_options", "+".join(sorted(opts)) or "none")
                 # symbolic denominator (pole search) == 1/numeric shape, on the sheet where every channel has +q_i as the numeric shape
-                if rnd % 2 == 0:
+                if True:
                     try:
                         import sympy as sym
 
